@@ -1134,7 +1134,7 @@ def parse_beep(toks):
 
 @parse_action(bload_stmt)
 def parse_bload_stmt(toks):
-    filespec, offset = toks
+    filespec, offset, *_ = list(toks) + [None]
     return BloadStmt(filespec, offset)
 
 
